@@ -475,6 +475,9 @@ func genQUIC(r *lib.Rng, n int) func() {
 	p := newQUICPeer(addrA)
 	defer p.close()
 	genQUICSweeps(r, p)
+	for i := 0; i < 4+n/40; i++ {
+		genBig(r, newQUICHist(r, p), i)
+	}
 	for i := 0; i < n; i++ {
 		if i%3 == 0 {
 			genQUICDefaults(r, p)
